@@ -37,6 +37,17 @@ Fixpoint rstrip0 (rev_l : list Z) : list Z :=
 
 Definition repeat0 (k : Z) : list Z := repeat 48 (Z.to_nat k).
 
+(* the decimal rounding step of to_str: keep dps digits of sd, rounding half up on the digit that follows
+   (the Python code increments the kept digit string, carrying through trailing nines) *)
+Definition round_digits (sd dps exponent : Z) : list Z * Z :=
+  let all := dec_digits sd in
+  let L := zlen all in
+  if (dps <? L) && (5 <=? nth (Z.to_nat dps) all 0) then
+    let P := sd / 10 ^ (L - dps) + 1 in
+    if P =? 10 ^ dps then (1 :: repeat 0 (Z.to_nat (dps - 1)), exponent + 1)
+    else (digits_k (Z.to_nat dps) P [], exponent)
+  else (firstn (Z.to_nat dps) all, exponent).
+
 (* to_str for a finite nonzero s, given the float-glue values for dps+3 digits *)
 Definition to_str_finite (s : mpf) (dps : Z) (strip_zeros : bool) (min_fixed max_fixed : Z)
                          (show_zero_exponent : bool) (bitprec fixdps : Z) : list Z :=
@@ -48,12 +59,7 @@ Definition to_str_finite (s : mpf) (dps : Z) (strip_zeros : bool) (min_fixed max
     if dps =? 0 then
       ([c_dot; 48], if 5 <=? hd 0 all then exponent + 1 else exponent)
     else
-      let '(dg, exponent) :=
-        if (dps <? L) && (5 <=? nth (Z.to_nat dps) all 0) then
-          let P := sd / 10 ^ (L - dps) + 1 in
-          if P =? 10 ^ dps then (1 :: repeat 0 (Z.to_nat (dps - 1)), exponent + 1)
-          else (digits_k (Z.to_nat dps) P [], exponent)
-        else (firstn (Z.to_nat dps) all, exponent) in
+      let '(dg, exponent) := round_digits sd dps exponent in
       let dgc := map ch dg in
       let '(dgc, split, exponent) :=
         if (min_fixed <? exponent) && (exponent <? max_fixed) then
